@@ -175,6 +175,9 @@ type Proc struct {
 	waitErr error
 	HTTP    *http.Client
 	RTBase  string // host:port of the verifrt control listener of a real SUT
+	// RealToken: the process is the real binary; harness connections present
+	// this access token (minted with the secret of the fake discovery service)
+	RealToken string
 	locks   bool   // lock-order monitor on: the edges are collected into the workspace when the process is killed
 	ws      *Workspace
 }
@@ -548,6 +551,11 @@ type RealOpts struct {
 	Race        bool
 	Name        string
 	RTAddr      bool // start the verifrt control listener
+	// Defaults: leave frame duration, idle timeout, sync-clock interval and log
+	// summary interval to cmd/main.go's own defaults (15 ms, 5 min, 5 s, 1 min)
+	// except for the ones set explicitly in Env
+	Defaults bool
+	Env      []string
 }
 
 func freePort() string {
@@ -591,9 +599,12 @@ func (w *Workspace) StartReal(bin string, o RealOpts) (*Proc, error) {
 		"HAGALL_PRIVATE_KEY="+TestKeyHex, "HAGALL_LOG_LEVEL=warning",
 		"HAGALL_HDS_ENDPOINT="+o.HDS, "HAGALL_NCS_ENDPOINT="+o.NCS, "HAGALL_EVENTS_ENDPOINT=",
 		"HAGALL_HDS_REGISTRATION_INTERVAL="+o.RegInterval.String(), "HAGALL_HDS_HEALTHCHECK_TTL="+o.HealthTTL.String(),
-		"HAGALL_FRAME_DURATION="+o.Frame.String(), "HAGALL_CLIENT_IDLE_TIMEOUT="+o.Idle.String(),
-		"HAGALL_SYNC_CLOCK_INTERVAL=1h", "HAGALL_LOG_SUMMARY_INTERVAL=1h",
 		"HAGALL_CLOCK_CHECKER_INITIAL_DELAY=24h")
+	if !o.Defaults {
+		cmd.Env = append(cmd.Env, "HAGALL_FRAME_DURATION="+o.Frame.String(), "HAGALL_CLIENT_IDLE_TIMEOUT="+o.Idle.String(),
+			"HAGALL_SYNC_CLOCK_INTERVAL=1h", "HAGALL_LOG_SUMMARY_INTERVAL=1h")
+	}
+	cmd.Env = append(cmd.Env, o.Env...)
 	if len(o.Flags) > 0 {
 		cmd.Env = append(cmd.Env, "HAGALL_FEATURE_FLAGS="+string(flagsJSON))
 	}
